@@ -177,7 +177,35 @@ class Totals:
         self.by_origin = {}
         self.skipped_by_origin = {}
         self.same = 0
+        self.stream_sigs = 0
         self.failures = []  # (info incl. plan line, kind)
+
+
+def stream_sig(line):
+    """Triage label of a rejected stream: the first difference between the input's and the output's
+    elements once the (possibly) optional ones are left out.  Only used to key known findings."""
+    r = show(line)
+    t = r.get("trace") or {}
+
+    def proj(es):
+        out = []
+        for e in es:
+            k = e["k"]
+            if k in ("cs", "TerminalComma", "TerminalEmpty"):
+                continue
+            if k == "TerminalSemicolon" and e.get("p") == "StatementExpr":
+                continue
+            if k == "TerminalColonColon" and e.get("p") == "PathSegmentWithGenericArgs":
+                continue
+            out.append((k, e["t"]))
+        return out
+    a, b = proj(t.get("in", [])), proj(t.get("out", []))
+    for tag, i1, i2, j1, j2 in difflib.SequenceMatcher(None, a, b, autojunk=False).get_opcodes():
+        if tag != "equal":
+            ks = ",".join(k for k, _ in a[i1:i2][:3])
+            kt = ",".join(k for k, _ in b[j1:j2][:3])
+            return f"{tag}:{ks}>{kt}"
+    return "unclassified"
 
 
 def add_failure(tot, info, kind):
@@ -185,8 +213,11 @@ def add_failure(tot, info, kind):
         sig = idem_sig(info)
     elif kind == "panic":
         sig = (info.get("panic") or "")[:60]
+    elif kind == "stream" and tot.stream_sigs < 300:
+        tot.stream_sigs += 1
+        sig = stream_sig(info["line"])
     else:
-        sig = ""
+        sig = "unclassified" if kind == "stream" else ""
     tot.failures.append({"kind": kind, "sig": sig, "origin": info.get("origin", "?"), "line": info["line"],
                          "sha": info.get("sha", ""), "size": len(info.get("text", "")) or info.get("n", 0)})
 
@@ -265,6 +296,9 @@ def idem_sig(r):
     if cm[3] > cm[1]:
         # an own-line comment of the input shares its line with the preceding token in the output
         return "comment-joined"
+    if cm[3] < cm[1]:
+        # a comment that followed a token on its line in the input is on a line of its own in the output
+        return "comment-detached"
     a, b = r["out1"].splitlines(), r["out2"].splitlines()
     changed = [l[1:] for l in difflib.ndiff(a, b) if l[:1] in "+-"]
     if changed and all(not l.strip() for l in changed):
@@ -329,7 +363,8 @@ def report(chk, tot):
             if kind in ("idempotence", "parse", "panic") and origin.split(":")[0] != "geom":
                 text = minimise(line, kind, sig, text)
                 r = show({"id": line["id"], "src": {"k": "text", "text": text}, "cfg": line["cfg"]})
-            replay = {"line": {"id": line["id"], "src": {"k": "text", "text": text}, "cfg": line["cfg"]},
+            replay = {"line": {"id": line["id"], "src": {"k": "text", "text": text}, "cfg": line["cfg"],
+                               "origin": origin},
                       "origin": line["src"], "input": text, "out1": r.get("out1"), "out2": r.get("out2"),
                       "idem": r.get("idem"), "parse_ok": r.get("parse_ok"), "panic": r.get("panic")}
             what = {"idempotence": "formatting twice differs from formatting once",
@@ -531,10 +566,8 @@ def action_coverage(chk):
             cov[m.group(1)] = int(m.group(3))
     shutil.rmtree(d, ignore_errors=True)
     never = [a for a in ACTIONS if not cov.get(a)]
-    if never:
-        raise ToolError(f"action(s) never taken on the seed inputs (binding would be vacuous there): {never}")
     log(f"[C11] action coverage on seeds (states generated per action): {cov}")
-    return cov
+    return cov, never
 
 
 # ------------------------------------------------------------------ main
@@ -554,8 +587,11 @@ def main(tier, replay=None):
 
     rng = random.Random(seed())
     n_design = self_check(chk)
-    cov = action_coverage(chk)
+    cov, never = action_coverage(chk)
     run_plan(chk, seed_plan(), "seeds", tot)
+    if never and not tot.failures:
+        # every seed was accepted, yet an action was never needed: the seeds no longer exercise it
+        raise ToolError(f"action(s) never taken on the seed inputs (binding would be vacuous there): {never}")
 
     # ---- geometry (R + V)
     geom_path, n_geom_emitted = geometry_lines(chk, tier)
